@@ -106,6 +106,14 @@ def work_special(args):
                     snd = ops.get("send@" + sd, [])
                     if snd and snd[-1][3] != "closed":
                         bad.append(("closed-send", "send on the closed connection at %s returned %r" % (sd, snd[-1][3])))
+        elif scenario.startswith("handler-raises"):
+            # the client learns of the end at the latest through its keep-alive: silence + ping_timeout + (resend_limit+1)*resend_timeout
+            t_end = (ops.get("handler") or [[None, None, None, None]])[0][2]
+            last = (ops.get("recv@c") or [[None, None, None, None]])[-1]
+            if t_end is None:
+                bad.append(("reference", "the scripted handler never ended"))
+            elif last[3] != "eof" or last[2] is None or last[2] > t_end + se.bound + MARGIN:
+                bad.append(("late", "recv@c was %s at %s after the server's handler raised at %.3f (bound %.3f)" % (last[3], last[2], t_end, t_end + se.bound)))
         else:
             conn = ops["connect"][0]
             want = 0.02 + (lim + 1) * rt
@@ -130,7 +138,7 @@ def run(ctx):
                 "exactly (resend_limit+1)*resend_timeout, late sends raise closed, server table empties, the address reconnects; each run is "
                 "replayed through the Lean L1 model tick-exactly; plus a forceful local close() on either side while recv / recv_unreliable are pending in other tasks "
                 "(released at once locally, within one delay at the peer; later recv raises end-of-stream), and a keyed server refusing the login (wrong key, "
-                "expired, garbage ticket) — each followed by a new working connection from the same address; distinct non-trivial = distinct (configuration, k, mode)")
+                "expired, garbage ticket), and a server handler that ends with an exception (end-of-stream escaping its receive loop, a rejected request) — each followed by a new working connection from the same address; distinct non-trivial = distinct (configuration, k, mode)")
     base = dict(fragment_size=16, resend_timeout=0.5, ping_timeout=1.0)
     cfgs = []
     if quick:
@@ -167,6 +175,8 @@ def run(ctx):
                     sjobs.append((n, dict(base, version=version, credentials=creds, resend_limit=lim), 1, sc)); n += 1
             for sc in ("refused:wrong-key", "refused:expired", "refused:garbage"):
                 sjobs.append((n, dict(base, version=version, credentials=True, resend_limit=lim), 1, sc)); n += 1
+            for sc in ("handler-raises:eof", "handler-raises:reject"):
+                sjobs.append((n, dict(base, version=version, credentials=False, resend_limit=lim), 1, sc)); n += 1
     drv = ctx.driver("C02")
     ndiff, first = 0, None
     with multiprocessing.Pool(min(16, os.cpu_count() or 4)) as pool:
